@@ -424,13 +424,14 @@ class Simplifier(pysmt.walkers.DagWalker):
 
         if const.is_zero():
             return const
-        else:
-            if len(new_args) == 0:
-                return const
-            elif not const.is_one():
-                new_args.append(const)
+        elif len(new_args) == 0:
+            return const
 
         new_args = sorted(new_args, key=FNode.node_id)
+        if not const.is_one():
+            # The constant is always the last argument (walk_plus
+            # relies on this to recognize negative coefficients)
+            new_args.append(const)
         return self.manager.Times(new_args)
 
     def walk_pow(self, formula: FNode, args: List[FNode], **kwargs) -> FNode:
